@@ -10,6 +10,9 @@ LEVEL = "proof"
 ENTRY = "socialchoicekit.elicitation_utils / elicitation rules"
 
 
+NAN_SENTINEL = "987654321/1000003"     # the state machine is value-agnostic: a NaN answer travels as this rational
+
+
 def clog2(m):
     return 0 if m <= 1 else (m - 1).bit_length()
 
@@ -88,10 +91,18 @@ def impl_machine(case):
             kk = occ.get(key, 0)
             occ[key] = kk + 1
             fwd.append([int(a), int(j)])
-            return it["answers"].get(f"{key[0]},{key[1]},{kk}", 0.0)
+            v = it["answers"].get(f"{key[0]},{key[1]},{kk}", 0.0)
+            return float("nan") if v == "nan" else v
         el = LambdaElicitor(f, memoize=it["memoize"], zero_indexed=it["zero"])
-        ans = [float(el.elicit(a, j)) for a, j in it["ops"]]
-        out.append({"answers": [fr(Fraction(x)) for x in ans], "forwarded": fwd, "count": int(el.elicitation_count)})
+        ans = []
+        for op in it["calls"]:
+            if op[0] == "e":
+                ans.append(float(el.elicit(op[1], op[2])))
+            else:   # one elicit_multiple call (may contain the same pair twice)
+                qs = op[1]
+                r = el.elicit_multiple(np.array([q[0] for q in qs], dtype=int), np.array([q[1] for q in qs], dtype=int))
+                ans += [float(x) for x in r]
+        out.append({"answers": ["nan" if x != x else fr(Fraction(x)) for x in ans], "forwarded": fwd, "count": int(el.elicitation_count)})
     return {"results": out}
 
 
@@ -233,8 +244,18 @@ def run_machine(R, count):
             for j in range(dom + 1):
                 for kk in range(nq + 1):
                     if R.rng.random() < 0.7:
-                        answers[f"{a + 0},{j + 0},{kk}"] = R.rng.choice([0.0, 0.0, 1.0, 2.5, -1.0, float(kk)])
-        items.append({"ops": ops, "memoize": R.rng.random() < 0.6, "zero": zero, "answers": answers})
+                        answers[f"{a + 0},{j + 0},{kk}"] = R.rng.choice([0.0, 0.0, 1.0, 2.5, -1.0, float(kk), "nan"])
+        # group the questions into single elicit calls and elicit_multiple batches (which may repeat a pair)
+        calls, i = [], 0
+        while i < len(ops):
+            if R.rng.random() < 0.4:
+                b = R.rng.randint(1, 4)
+                calls.append(["m", ops[i:i + b]])
+                i += b
+            else:
+                calls.append(["e", ops[i][0], ops[i][1]])
+                i += 1
+        items.append({"ops": ops, "calls": calls, "memoize": R.rng.random() < 0.6, "zero": zero, "answers": answers})
     res = pmap("c15", "impl_machine", [{"items": ch} for ch in chunks(items, 50)], deadline=60.0)
     flat = []
     for r in res:
@@ -245,13 +266,14 @@ def run_machine(R, count):
         tab = []
         for key, v in it["answers"].items():
             a, j, kk = key.split(",")
-            tab += [a, j, kk, fr(Fraction(v))]
+            tab += [a, j, kk, NAN_SENTINEL if v == "nan" else fr(Fraction(v))]
         lines.append(" ".join(["elicitor", "1" if it["memoize"] else "0", str(fixer), str(len(it["answers"]))] + tab +
                               [str(len(it["ops"]))] + [str(x) for op in it["ops"] for x in op]))
     ans = lean_query(lines)
     for it, r, a in zip(items, flat, ans):
         fwd = r["forwarded"]
-        inp = {"ops": it["ops"], "memoize": it["memoize"], "zero_indexed": it["zero"], "answers": it["answers"]}
+        r = dict(r, answers=[NAN_SENTINEL if x == "nan" else x for x in r["answers"]])
+        inp = {"ops": it["ops"], "calls": it["calls"], "memoize": it["memoize"], "zero_indexed": it["zero"], "answers": it["answers"]}
         errs = []
         if r["count"] != len(fwd):
             errs.append("counter differs from the number of questions forwarded")
@@ -313,7 +335,7 @@ def replay(R, rep):
     i = rep["input"]
     if "ops" in i:
         R.rng.seed(0)
-        items = [{"ops": i["ops"], "memoize": i["memoize"], "zero": i["zero_indexed"], "answers": i["answers"]}]
+        items = [{"ops": i["ops"], "calls": i.get("calls") or [["e", a, j] for a, j in i["ops"]], "memoize": i["memoize"], "zero": i["zero_indexed"], "answers": i["answers"]}]
         res = pmap("c15", "impl_machine", [{"items": items}], deadline=30.0)[0]["results"]
         # reuse run_machine's judging by a tiny shim
         import types
@@ -322,10 +344,11 @@ def replay(R, rep):
         tab = []
         for key, v in items[0]["answers"].items():
             a, j, kk = key.split(",")
-            tab += [a, j, kk, fr(Fraction(v))]
+            tab += [a, j, kk, NAN_SENTINEL if v == "nan" else fr(Fraction(v))]
         ans = lean_query([" ".join(["elicitor", "1" if items[0]["memoize"] else "0", str(fixer), str(len(items[0]["answers"]))] + tab +
                                    [str(len(items[0]["ops"]))] + [str(x) for op in items[0]["ops"] for x in op])])
         r = res[0]
+        r = dict(r, answers=[NAN_SENTINEL if x == "nan" else x for x in r["answers"]])
         exp = " ".join(["ok", str(r["count"]), str(len(r["forwarded"]))] + [str(x) for q in r["forwarded"] for x in q] + r["answers"])
         if ans[0] != exp:
             R.corr_break("elicitor = model state machine", ENTRY, i, r, ans[0])
